@@ -635,6 +635,9 @@ func setFromParamVal(buf []byte, pf *PFromBody) ErrorHdr {
 						}
 						pf.Q = uint16(u*1000 + d)
 					}
+				} else if err == ErrHdrNumTooBig {
+					pf.ParamErr = err
+					pf.ErrOffs = OffsT(pf.vstart)
 				}
 			} else {
 				err = ErrHdrValTooLong
@@ -665,14 +668,15 @@ func setFromParamVal(buf []byte, pf *PFromBody) ErrorHdr {
 
 func pUInt64Val(b []byte) (n uint64, err ErrorHdr) {
 
-	if len(b) > 20 {
-		err = ErrHdrValTooLong
-		return
-	}
-
 	for _, c := range b {
 		if c < '0' || c > '9' {
 			err = ErrHdrValNotNumber
+			return
+		}
+		if n > (^uint64(0)-uint64(c-'0'))/10 {
+			// overflow => saturate
+			n = ^uint64(0)
+			err = ErrHdrNumTooBig
 			return
 		}
 		n = n*10 + uint64(c-'0')
